@@ -197,6 +197,8 @@ class ConcCtx:
     mode = 'conc'
 
     def __init__(self, env, tol=1e-7, dtol=2e-5):
+        from . import loader as _ld
+        _ld.reset_module_state()       # nothing a symbolic path left in a module-level container is seen by a concrete run
         self.env = env
         self.tolv = tol
         self.dtol = dtol
@@ -438,6 +440,8 @@ class Explorer:
         r.trace = []
         from . import proxy as _px
         del _px._hash_registry[:]
+        from . import loader as _ld
+        _ld.reset_module_state()
         r.pos = 0
         r.pc = []
         r.known = {}
